@@ -1,8 +1,9 @@
 (* CommitConsensus.v — model of commit/merkleroot: types.go:aggregateObservations,
    validate_observation.go:Processor.ValidateObservation (+ the role lookups of plugincommon.ChainSupport it calls),
    outcome.go:getConsensusObservation.
-   Byte strings (on-ramp address, merkle root, the whole RMN remote config) are ids interned by the harness from
-   their "%v" rendering, which is the identity minObservation uses. *)
+   Byte strings (on-ramp address, merkle root) and the whole RMN remote config are ids interned by the harness from a
+   canonical encoding of their content (every exported field), so equal id <=> equal value; that minObservation's own
+   identity (sha3 of the "%v" rendering) separates exactly the values that differ is checked by the correspondence. *)
 Require Import Verif.Model.Base Verif.Model.Consensus.
 
 (* ---------- Go "map[K][]V built by appending": group (key, value) entries by key ----------
